@@ -61,6 +61,15 @@ def harness_args(pid, tier, seed):
     return ["c02", seed] + ([2, 2000] if tier == "quick" else [40, 60000])
 
 
+def harness_args_386(pid, seed):
+    """second architecture (32-bit int): the C17 domain stays exhaustive; C01/C02 use the quick sample sizes"""
+    if pid == "C17":
+        return ["c17", seed]
+    if pid == "C01":
+        return ["c01", seed, 2]
+    return ["c02", seed, 1, 1000]
+
+
 def run(res, replay=None):
     pid = res.id
     vlib.proof_stage(res)
@@ -70,4 +79,4 @@ def run(res, replay=None):
         ["the Gallina model Can/Data.v is a faithful transcription of data.go / reinterpret.go: checked on every run by the "
          "differential comparison (exhaustive over geometries / the C17 domain; payload and value axes sampled)",
          "Go semantics for shifts >= width and uint8/uint16/uint64 wrap-around as written in Can/Data.v (amd64)"],
-        exhaustive=(pid == "C17"))
+        exhaustive=(pid == "C17"), also_goarch="386", goarch_args=harness_args_386(pid, res.seed))
